@@ -26,6 +26,9 @@ pub fn run(rep: &mut Report, tier: Tier, sel: &[&str], eval: Eval<'_>) {
             "byte" => u_byte(rep, tier, eval),
             "corpus" => u_corpus(rep, tier, eval),
             "decor" => u_decor(rep, tier, eval),
+            "cp" => u_cp(rep, tier, eval),
+            "vtok" => u_vtok(rep, tier, eval),
+            "utf8" => u_utf8(rep, tier, eval),
             other => panic!("unknown universe {}", other),
         }
     }
@@ -669,4 +672,113 @@ fn u_decor(rep: &mut Report, tier: Tier, eval: Eval<'_>) {
     let f = |s: &str, acc: &mut Acc| eval(s.as_bytes(), "U-decor", acc);
     let (total, acc) = sweep_list(&cases, &f);
     rep.absorb("U-decor", &format!("{} skeletons x every filler assignment with <= {} deviating slots x BOM / no final newline variants", DECOR_SKELETONS.len(), k), total, true, t0, acc);
+}
+
+
+/// frames for the code point universes: the ten lexical contexts plus frames whose error lies AFTER the character
+/// (line / column arithmetic over multi-byte text) and frames where the character touches a token boundary
+pub fn cp_frames() -> Vec<(&'static str, &'static str)> {
+    let mut v: Vec<(&'static str, &'static str)> = contexts().into_iter().map(|(_, pre, suf, _)| (pre, suf)).collect();
+    v.extend([("k='", "' x\n"), ("#", "\n=1\n"), ("k=\"\"\"\n", "\\\n  \"\"\"\n"), ("'", "'.b=1\n"), ("[a]\nb='", "'\n[a]\n"), ("k=[1,#", "\n2]\n"), ("", ""), ("a=1\n", "")]);
+    v
+}
+
+fn cp_list(tier: Tier) -> Vec<char> {
+    match tier {
+        Tier::Thorough => (0..=0x10FFFFu32).filter_map(char::from_u32).collect(),
+        Tier::Quick => {
+            let mut v: Vec<char> = (0..=0xFFFFu32).filter_map(char::from_u32).collect();
+            for plane in 1..=16u32 {
+                for off in [0u32, 1, 0xFFFE, 0xFFFF] {
+                    v.extend(char::from_u32(plane * 0x10000 + off));
+                }
+            }
+            v
+        }
+    }
+}
+
+/// every Unicode scalar value (quick: the whole BMP plus the first and last two code points of every supplementary
+/// plane) in every lexical context
+fn u_cp(rep: &mut Report, tier: Tier, eval: Eval<'_>) {
+    use rayon::prelude::*;
+    let t0 = Instant::now();
+    let frames = cp_frames();
+    let cps = cp_list(tier);
+    let total = (frames.len() * cps.len()) as u64;
+    let acc = (0..total)
+        .into_par_iter()
+        .fold(
+            || (Acc::default(), String::with_capacity(64)),
+            |(mut acc, mut s), idx| {
+                let (pre, suf) = frames[idx as usize / cps.len()];
+                s.clear();
+                s.push_str(pre);
+                s.push(cps[idx as usize % cps.len()]);
+                s.push_str(suf);
+                acc.evals += 1;
+                eval(s.as_bytes(), "U-cp", &mut acc);
+                (acc, s)
+            },
+        )
+        .map(|(a, _)| a)
+        .reduce(Acc::default, Acc::merge);
+    rep.absorb("U-cp", &format!("{} Unicode scalar values ({}) x {} frames (string kinds, comment, key, header, array, inline table, trailer, before an error, at a line continuation, bare)", cps.len(), if tier == Tier::Thorough { "all of them" } else { "whole BMP + edges of every supplementary plane" }, frames.len()), total, true, t0, acc);
+}
+
+/// byte sequences that are NOT UTF-8 (and the well-formed neighbours) inside each frame: every 2-byte sequence with a
+/// non-ASCII first byte; every 3-byte sequence lead x c1 x c2 and 4-byte sequence lead x c1 x c2 x c3 over the
+/// boundary values of each position (overlong forms, surrogates, beyond U+10FFFF, truncated and stray continuations)
+fn u_utf8(rep: &mut Report, tier: Tier, eval: Eval<'_>) {
+    let t0 = Instant::now();
+    let mut seqs: Vec<Vec<u8>> = Vec::new();
+    for a in 0x80..=0xFFu8 {
+        seqs.push(vec![a]);
+        for b in 0..=0xFFu8 {
+            seqs.push(vec![a, b]);
+        }
+    }
+    let conts: [u8; 10] = [0x00, 0x7F, 0x80, 0x8F, 0x90, 0x9F, 0xA0, 0xBF, 0xC0, 0xFF];
+    for lead in [0xE0u8, 0xE1, 0xEC, 0xED, 0xEE, 0xEF] {
+        for c1 in conts {
+            for c2 in conts {
+                seqs.push(vec![lead, c1, c2]);
+            }
+        }
+    }
+    for lead in [0xF0u8, 0xF1, 0xF3, 0xF4, 0xF5, 0xF7, 0xF8, 0xFF] {
+        for c1 in conts {
+            for c2 in [0x7Fu8, 0x80, 0xBF, 0xC0] {
+                for c3 in [0x7Fu8, 0x80, 0xBF, 0xC0] {
+                    seqs.push(vec![lead, c1, c2, c3]);
+                }
+            }
+        }
+    }
+    let frames = cp_frames();
+    let nframes = tier.pick(10, frames.len());
+    let mut cases: Vec<Vec<u8>> = Vec::with_capacity(seqs.len() * nframes);
+    for (pre, suf) in frames.iter().take(nframes) {
+        for q in &seqs {
+            let mut c = pre.as_bytes().to_vec();
+            c.extend_from_slice(q);
+            c.extend_from_slice(suf.as_bytes());
+            cases.push(c);
+        }
+    }
+    let f = |s: &[u8], acc: &mut Acc| eval(s, "U-utf8", acc);
+    let (total, acc) = sweep_bytes_list(&cases, &f);
+    rep.absorb("U-utf8", &format!("{} byte sequences around the UTF-8 well-formedness boundaries (all 1- and 2-byte sequences with a non-ASCII lead, 3- and 4-byte sequences over boundary continuation values) x {} frames", seqs.len(), nframes), total, true, t0, acc);
+}
+
+
+/// V16: token alphabet for the value / key entry points (no `k =` frame)
+pub const V16: [&str; 16] = ["1", "'a'", "\"b\"", "[", "]", "{", "}", ",", "=", "a", " ", "\n", "#c", ".", "é", "\r"];
+
+fn u_vtok(rep: &mut Report, tier: Tier, eval: Eval<'_>) {
+    let n = tier.pick(4, 5);
+    let t0 = Instant::now();
+    let f = |s: &str, acc: &mut Acc| eval(s.as_bytes(), "U-vtok", acc);
+    let (total, acc) = sweep_upto(&V16, n, "", "", &f);
+    rep.absorb("U-vtok", &format!("all sequences of <= {} tokens over V16 (value / key level, unframed)", n), total, true, t0, acc);
 }
